@@ -152,6 +152,9 @@ pub fn user_pool_emptied_by_several_withdrawals(run: &Run, thorough: bool) {
 }
 
 pub fn run(run: &Run) {
+    // withdrawals whose share of both reserves rounds to zero, and the smallest request there is (the seal oracles of this property
+    // compare every settled coin with the reference settlement)
+    crate::props::c16::withdrawals_whose_share_rounds_to_zero(run);
     long_histories(run, run.thorough());
     user_pool_emptied_by_several_withdrawals(run, run.thorough());
     huge_amounts(run, run.thorough());
